@@ -179,6 +179,10 @@ class ProcessWorker(Worker):
             assert self._pid == self._child.pid
         else:
             assert self._child.sentinel in ready
+            # the child died before it could report its identity: there is no worker (and nothing to register)
+            self._child.join()
+            self._dead = True
+            raise RuntimeError(f'The child process exited with code {self._child.exitcode} before the worker has started')
 
     # Children-side, main (working) thread
     def _run(self):
